@@ -584,6 +584,11 @@ class Command(Frame):
                 f"frag_num={frag_num}, but must be <= frag_cnt={frag_cnt}"
             )
 
+        if not 2 <= len(fragment) <= 82 or len(fragment) % 2:
+            raise exc.CommandInvalid(
+                f"fragment length={len(fragment)}, but must be 1-41 bytes (2-82 hex chars)"
+            )
+
         header = "00230008" if zon_idx == FA else f"{zon_idx}200008"
         frag_length = int(len(fragment) / 2)
 
